@@ -510,6 +510,11 @@ func runC06(c *Ctx) {
 				k.checkWritePct(vals[j], e)
 				c.R.Case(true, ev.Hash("w", fmt.Sprint(vals[j]), fmt.Sprint(e)))
 			}
+			// more decimals than 10^e fits in 64 bits: the units themselves still fit
+			for e := uint32(19); e <= 26; e++ {
+				k.checkWrite(vals[j], e)
+				c.R.Case(true, ev.Hash("w", fmt.Sprint(vals[j]), fmt.Sprint(e)))
+			}
 		}
 		k.flush()
 	})
